@@ -409,7 +409,7 @@ def records_for(src):
                 invrec = read_inversion(inversion, objs_abs, lat, sc, sx, ss)
         except Exception as ex:  # the property gives no licence to raise on a valid dataset
             rec["raised"] = type(ex).__name__ + ": " + str(ex)[:120]
-            rec.update({"res": [], "nres2": [], "chi2map4": [], "sn2": [], "rff": [], "chi2q": OFF, "chi2_fix": OFF, "rchi2_fix": OFF,
+            rec.update({"res": [], "nres2": [], "chi2map4": [], "sn2": [], "chi2q": OFF, "chi2_fix": OFF, "rchi2_fix": OFF,
                         "nn_fix": OFF, "ll_fix": OFF, "fom_fix": OFF, "res_fix": [], "chi2map_fix": [], "m_fix": []})
             recs.append(rec)
             continue
@@ -423,7 +423,8 @@ def records_for(src):
             rec["nres2"] = ai(raw["normalized_residual_map"], 2)
             rec["chi2map4"] = ai(raw["chi_squared_map"], 4)
             rec["sn2"] = ai(raw["signal_to_noise_map"], 2)
-            rec["rff"] = ai(raw["residual_flux_fraction_map"], RFF_DEN, tol=1e-6)
+            rff = {k: rec[k] for k in ("p", "h", "w", "u", "mode", "junk", "mk", "d", "e", "sky", "m", "raised")}
+            rff.update({"api": "rff", "hasinv": False, "rff": ai(raw["residual_flux_fraction_map"], RFF_DEN, tol=1e-6)})
             c4 = ai([raw["chi_squared"]], 4)[0] if raw["chi_squared"] is not None else OFF
             rec["chi2q"] = c4
         else:
@@ -441,6 +442,8 @@ def records_for(src):
             iv["llreg_fix"] = fx(raw["log_likelihood_with_regularization"]) if raw["log_likelihood_with_regularization"] is not None else OFF
             rec["inv"] = iv
         recs.append(rec)
+        if mk == "int":
+            recs.append(rff)
     for r in recs:
         r["_src"] = src
     return recs
@@ -574,7 +577,7 @@ def generic_inversion_source(rng, k):
 # validation
 # ------------------------------------------------------------------------------------------------------------
 def _describe(rec):
-    s = f"fit[{rec['mode']}, junk={rec['junk']}, model={rec['mk']}] on {rec['h']}x{rec['w']} u={rec['u']} d={rec['d']} e={rec['e']} sky={rec['sky']}"
+    s = f"{'residual_flux_fraction_map of ' if rec['api'] == 'rff' else ''}fit[{rec['mode']}, junk={rec['junk']}, model={rec['mk']}] on {rec['h']}x{rec['w']} u={rec['u']} d={rec['d']} e={rec['e']} sky={rec['sky']}"
     if rec.get("mk") == "int":
         s += f" m={rec.get('m')}"
     if rec["hasinv"]:
@@ -637,14 +640,14 @@ def run(ctx):
         "inversion_shapes": [(1, 2)],
         "values": [-2, 3], "noise_exponents": [-1, 0, 1],
         "skies": [-1, 0, 2],
-        "patterns": 4 if quick else 6,
+        "patterns": 4 if quick else 8,
         "layouts": ["R2", "R1N1", "N1R2", "N2", "R1N1R1"] if quick else ["R2", "R1N1", "N1R2", "N2", "R1N1R1", "R3", "R2N1R1", "N1R2N1", "R2R2"],
-        "design_matrix_values": [0, 1], "design_matrix_rows": 2 if quick else 3,
+        "design_matrix_values": [0, 1], "design_matrix_rows": 2,
         "reg_kinds": [(1, 0), (4, 0), (4, 1)],
         "reconstruction_patterns": [[1, 2, 3, 1], [3, 0, 2, 5]],
         "junk_fills": [0, 1, 2],
-        "random_datasets": 250 if quick else 3000, "random_max_side": 6 if quick else 8,
-        "real_lattice_inversions": 90 if quick else 900, "real_generic_inversions": 16 if quick else 120,
+        "random_datasets": 250 if quick else 6000, "random_max_side": 6 if quick else 8,
+        "real_lattice_inversions": 90 if quick else 1500, "real_generic_inversions": 16 if quick else 120,
     }
     ctx.bounds = b
     patterns = make_patterns(rng, b["patterns"], 12, b["values"], b["noise_exponents"])
@@ -670,9 +673,9 @@ def run(ctx):
     for part in core.pmap(_many, groups, chunksize=1):
         recs.extend(part)
     ctx.replayed = len(insts)
-    mid = next(r for r in recs if r["_src"]["origin"] == "tlc" and r["mode"] == "native" and r["junk"] == 2 and len(r["u"]) >= 3)
+    mid = next(r for r in recs if r["api"] == "fit" and r["_src"]["origin"] == "tlc" and r["mode"] == "native" and r["junk"] == 2 and len(r["u"]) >= 3)
     ctx.sample({"tlc_instance_replayed": {k: v for k, v in mid.items() if k not in ("_src", "id")}})
-    rl = next(r for r in recs if r["_src"]["origin"] == "real-lattice" and any(x is None for x in r["_src"]["inv"]["regs"])
+    rl = next(r for r in recs if r["api"] == "fit" and r["_src"]["origin"] == "real-lattice" and any(x is None for x in r["_src"]["inv"]["regs"])
               and any(x is not None for x in r["_src"]["inv"]["regs"]))
     ctx.sample({"real_inversion_record": {k: v for k, v in rl.items() if k not in ("_src", "id")},
                 "regularizations": rl["_src"]["inv"]["regs"], "layout": [o["type"] for o in rl["_src"]["inv"]["inst"]["objs"]]})
@@ -705,7 +708,7 @@ def replay(ctx, rp):
     src["modes"] = [tuple(x) for x in src["modes"]]
     recs = records_for(src)
     want = rp.get("record", {})
-    keep = [r for r in recs if (r["mode"], r["junk"]) == (want.get("mode"), want.get("junk"))] or recs
+    keep = [r for r in recs if (r["api"], r["mode"], r["junk"]) == (want.get("api"), want.get("mode"), want.get("junk"))] or recs
     rej = validate(ctx, keep, "C08-replay")
     print("replayed", len(keep), "records; rejected:", [(r["sig"], r["clauses"]) for r in rej])
     return ctx.finish()
